@@ -11,7 +11,9 @@ E1, three complete enumerations on the real TokenParser / StringArgs / ArgvArgs:
     option_tokens must be the tokens before the first '--' and has_option_token must agree with it.
 
 (b) inverse law: every list of tokens over {a, e-acute, space, ', ", \\, -, =} that the quoting scheme can
-    express (bounds in BOUNDS_B), each token written as '...' or "..." with every embedded quote
+    express (boxes in BOUNDS_B: quick = <=3 tokens of <=1, <=2 of <=2, 1 of <=5 over the full alphabet and <=2 of
+    <=3 over {a, space, ', ", \\, -}; thorough = <=4 of <=1, 1 of <=5, <=2 of <=3, <=3 of <=2, all over the full
+    alphabet), each token written as '...' or "..." with every embedded quote
     (of either kind) backslash-escaped, or bare when it is non-empty and free of whitespace, quotes and
     backslashes; joined by every separator choice out of {" ", "  ", tab, newline} (gap i of layout k uses
     separator (k+i) mod 4, so every separator occurs in every gap) with and without leading / trailing
@@ -59,10 +61,13 @@ WS_CORE = ["\n", "\r"]
 WS_ROTATED = ["\x0b", "\x0c", "\x1f", "\x85", "\xa0", "\u2003", "\u3000", "\x1c"]
 ALPHA_B = ["a", "é", " ", "'", '"', "\\", "-", "="]
 SEPS = [" ", "  ", "\t", "\n"]
-# (max number of tokens, max token length) boxes, enumerated completely, per tier
+# (max number of tokens, max token length, alphabet) boxes, enumerated completely, per tier
+# (run in this order, smallest first; a list covered by an earlier box is not repeated)
+ALPHA_B_CORE = ["a", " ", "'", '"', "\\", "-"]   # without the two further ordinary characters
+ALPHAS = {"full": ALPHA_B, "core": ALPHA_B_CORE}
 BOUNDS_B = {
-    "quick": [(1, 5), (2, 3), (3, 1)],
-    "thorough": [(1, 5), (2, 3), (3, 2), (4, 1)],
+    "quick": [(3, 1, "full"), (2, 2, "full"), (1, 5, "full"), (2, 3, "core")],
+    "thorough": [(4, 1, "full"), (2, 2, "full"), (1, 5, "full"), (2, 3, "full"), (3, 2, "full")],
 }
 POOL_C = ["a b", "it's", 'q"x', "", "x=y", "--flag", "-f", "-vX Y", "--val=a b", "--val", "--", "é\t", "b\\\\",
           "--nope", "srv", "7", "-h"]
@@ -270,23 +275,24 @@ def check_b(case):
     return []
 
 
-def tokens_upto(maxlen):
+def tokens_upto(maxlen, alpha="full"):
     out = []
     for L in range(maxlen + 1):
-        for t in itertools.product(ALPHA_B, repeat=L):
+        for t in itertools.product(ALPHAS[alpha], repeat=L):
             tok = "".join(t)
             if expressible(tok):
                 out.append(tok)
     return out
 
 
-def cases_b(first, ntok, maxlen, seen_boxes):
-    """all cases whose token list has exactly ntok tokens (each <= maxlen) and starts with `first`;
-    lists already covered by an earlier box (seen_boxes: [(ntok', maxlen')]) are skipped."""
-    toks = tokens_upto(maxlen)
+def cases_b(first, ntok, maxlen, seen_boxes, alpha="full"):
+    """all cases whose token list has exactly ntok tokens (each <= maxlen, over the alphabet) and starts with
+    `first`; lists already covered by an earlier box (seen_boxes: [(ntok', maxlen', alphabet')]) are skipped."""
+    toks = tokens_upto(maxlen, alpha)
     for rest in itertools.product(toks, repeat=ntok - 1):
         lst = (first,) + rest
-        if any(ntok <= n2 and max(len(t) for t in lst) <= m2 for n2, m2 in seen_boxes):
+        if any(ntok <= n2 and max(len(t) for t in lst) <= m2 and (a2 == "full" or all(ch in ALPHAS[a2] for t in lst for ch in t))
+               for n2, m2, a2 in seen_boxes):
             continue
         for st in itertools.product(*[styles_of(t) for t in lst]):
             seen = set()
@@ -300,15 +306,13 @@ def cases_b(first, ntok, maxlen, seen_boxes):
                 yield {"part": "b", "tokens": list(lst), "styles": list(st), "layout": list(lay)}
 
 
-def part_b(tier):
-    boxes = BOUNDS_B[tier]
-    units = [("empty", None, 0, 0, [])]
-    done = []
-    for ntok_max, maxlen in boxes:
-        for ntok in range(1, ntok_max + 1):
-            for first in tokens_upto(maxlen):
-                units.append(("box", first, ntok, maxlen, list(done)))
-        done.append((ntok_max, maxlen))
+def part_b(box, done):
+    """One box (max tokens, max token length), skipping lists that an earlier box in `done` covered."""
+    ntok_max, maxlen, alpha = box
+    units = [] if done else [("empty", None, 0, 0, [])]
+    for ntok in range(1, ntok_max + 1):
+        for first in tokens_upto(maxlen, alpha):
+            units.append(("box", first, ntok, maxlen, list(done)))
 
     def work(share):
         vs = []
@@ -317,7 +321,7 @@ def part_b(tier):
             if kind == "empty":
                 cs = [{"part": "b", "tokens": [], "styles": [], "layout": [k, l, 0]} for k in range(len(SEPS)) for l in (0, 1)]
             else:
-                cs = cases_b(first, ntok, maxlen, seen)
+                cs = cases_b(first, ntok, maxlen, seen, alpha)
             c, t = watched(cs, check_b, vs, lambda c: any(needs_quotes(t) for t in c["tokens"]))
             n += c
             nt += t
@@ -495,22 +499,37 @@ def main():
     rep.part("a2-other-whitespace", alphabet=alpha2, rotated_whitespace=ws, max_length=la2, strings=na2,
              complete=(na2 == sum(len(alpha2) ** L for L in range(la2 + 1))))
     rep.set("rotated_whitespace", repr(ws))
-    nb, ntb, vsb = part_b(rep.tier)
-    rep.merge(vsb)
-    ntoks = {m: len(tokens_upto(m)) for _n, m in BOUNDS_B[rep.tier]}
-    rep.part("b-roundtrip", alphabet=ALPHA_B, boxes=[{"max_tokens": n, "max_token_length": m} for n, m in BOUNDS_B[rep.tier]],
-             expressible_tokens_by_max_length=ntoks, all_tokens_by_max_length={m: sum(len(ALPHA_B) ** L for L in range(m + 1)) for m in ntoks},
-             command_strings=nb, with_a_token_that_needs_quotes=ntb, separators=SEPS)
     nc, ntc, nlines, vsc, tally = part_c(lc)
     rep.merge(vsc)
     rep.part("c-equivalence", pool=POOL_C, max_tokens=lc, lines=nlines, cases=nc, formats=3, modes=2,
              with_option_and_quoted_token=ntc, outcomes=tally)
+    # (b) box by box, smallest first; once anything has been found the larger boxes are not run (they would only
+    # repeat it at greater cost) and the evidence says so
+    nb = ntb = 0
+    done, skipped = [], []
+    for box in BOUNDS_B[rep.tier]:
+        if rep.violations:
+            skipped.append(box)
+            continue
+        n1, nt1, vs1 = part_b(box, done)
+        rep.merge(vs1)
+        nb += n1
+        ntb += nt1
+        done.append(box)
+    ntoks = {"%d/%s" % (m, a): len(tokens_upto(m, a)) for _n, m, a in BOUNDS_B[rep.tier]}
+    rep.part("b-roundtrip", alphabets=ALPHAS, boxes=[{"max_tokens": n, "max_token_length": m, "alphabet": a} for n, m, a in done],
+             boxes_not_run=[{"max_tokens": n, "max_token_length": m, "alphabet": a} for n, m, a in skipped],
+             expressible_tokens_by_max_length=ntoks,
+             all_tokens_by_max_length={"%d/%s" % (m, a): sum(len(ALPHAS[a]) ** L for L in range(m + 1)) for _n, m, a in BOUNDS_B[rep.tier]},
+             command_strings=nb, with_a_token_that_needs_quotes=ntb, separators=SEPS)
     rep.set("evaluations", na + na2 + nb + nc)
     rep.set("distinct_nontrivial", nta + ntb + ntc)
     hung = any(v["sig"] == "non-termination" for v in rep.violations.values())
-    rep.set("exhaustive", not hung)
+    rep.set("exhaustive", not hung and not skipped)
     if hung:
         rep.set("stopped", "a worker that confirmed a non-terminating input skipped the rest of its share")
+    elif skipped:
+        rep.set("stopped", "violations were found before the larger boxes of part (b) were reached; those were not run")
     rep.set("rule", "(a) all strings <= %d over 7 characters; (b) all expressible token lists in the boxes x all quote styles per token x 16 layouts; "
                     "(c) all lines <= %d tokens over a 17-token pool x 3 quoting styles (x 3 formats x strict/lenient + resolution).  non-trivial = "
                     "(a) strings containing a quote or a backslash, (b) command strings with at least one token that needs quotes (empty, whitespace, "
